@@ -144,6 +144,23 @@ def run_one(i, extra):
             if ended and "Forcing clean up" in (ended[-1].get("cause") or ended[-1].get("output") or ""):
                 probes["ended-by-the-back-stop"] = 1
         link_checks(w, sm_arn, ex_arn, exname, typ, add, probes, restarted=(mode == "api-restart"))
+        if mode == "api" and typ == "STANDARD" and len(smname) < 76 and acceptable(smname + "-eu"):
+            # a second machine whose name merely BEGINS with the first one's (orders / orders-eu) and an execution of
+            # its own: each machine's list holds its own executions only
+            rec2 = w.api_sync(node, "CreateStateMachine", {"name": smname + "-eu", "roleArn": w.ROLE,
+                                                           "definition": json.dumps(d), "type": typ})
+            if rec2["status"] == 200:
+                sm2 = rec2["json"]["stateMachineArn"]
+                w.api_sync(node, "StartExecution", {"stateMachineArn": sm2, "name": "other", "input": "{}"})
+                w.run_quiescent(limit=900)
+                probes["sibling-machine-with-common-name-prefix"] = 1
+                for arn_, own in ((sm_arn, smname), (sm2, smname + "-eu")):
+                    ls = w.api_sync(node, "ListExecutions", {"stateMachineArn": arn_})
+                    for e in ((ls["json"] or {}).get("executions") or []) if ls["status"] == 200 else []:
+                        parts = str(e.get("executionArn", "")).split(":")
+                        if e.get("stateMachineArn") != arn_ or len(parts) < 8 or parts[6] != own:
+                            add("linkage", "ListExecutions(%s) lists %r of %r" % (arn_, e.get("executionArn"), e.get("stateMachineArn")),
+                                witness="list-of-other-machine")
     else:
         # child launch with a Name parameter that never saw the API validators
         child_d = {"StartAt": "C", "States": {"C": {"Type": "Task", "Resource": F + "work", "End": True}}}
